@@ -228,7 +228,7 @@ class Check(core.PropertyCheck):
         reps = [n for n in REP_ROUTES if n in names]
         if tier == "quick":
             full = list(itertools.product(
-                reps, ("GET", "POST", "PUT", "DELETE", "HEAD"), ("none", "bearer_wrong", "bearer_valid"),
+                reps[:5], ("GET", "POST", "PUT", "DELETE", "HEAD"), ("none", "bearer_wrong", "bearer_valid"),
                 ("none", "forged", "plain"), ("none", "pair_hdr", "mismatch"), ("", "cross-site", "same-site")))
             pw = pairwise([names, list(METHODS_ALL), list(CRED_NO[:7] + CRED_YES + CRED_AMB),
                            ["none"] + list(CK_FORGED), list(XSRF_OK + XSRF_BAD), list(SFS)], rng)
@@ -289,7 +289,7 @@ class Check(core.PropertyCheck):
         rng = random.Random(ctx.seed + 1046)
         g = models[0].graph
         behs = g.edge_cover(ctx.rng, max_len=6, tail=0)
-        cap = 1500 if ctx.quick else 14000
+        cap = 1200 if ctx.quick else 14000
         if len(behs) > cap:
             # keep every behaviour with a prefix, sample the single-probe ones
             long_ = [b for b in behs if len(b) > 2]
